@@ -283,6 +283,15 @@ func catalogue() []corruption {
 		{Name: "fee-relayer", Actions: feeActions, Typed: func(c *corruptCtx, s *txSpec) bool { s.Fees.RelayerFee = bump(c.r, s.Fees.RelayerFee); return true }},
 		{Name: "fee-community", Actions: feeActions, Typed: func(c *corruptCtx, s *txSpec) bool { s.Fees.CommunityFee = bump(c.r, s.Fees.CommunityFee); return true }},
 		{Name: "fee-security", Actions: feeActions, Typed: func(c *corruptCtx, s *txSpec) bool { s.Fees.SecurityFee = bump(c.r, s.Fees.SecurityFee); return true }},
+		// the fee triple a message carries BEFORE fees are attached (what the code assumes when Fees is nil): a call
+		// built against that default is not the encoding of a message that has its own fees
+		{Name: "fee-defaults", Actions: feeActions, Typed: func(c *corruptCtx, s *txSpec) bool {
+			if s.Fees.RelayerFee != nil && s.Fees.RelayerFee.Cmp(big.NewInt(100000)) == 0 && s.Fees.CommunityFee.Cmp(big.NewInt(100000)) == 0 && s.Fees.SecurityFee.Cmp(big.NewInt(100000)) == 0 {
+				return false
+			}
+			s.Fees.RelayerFee, s.Fees.CommunityFee, s.Fees.SecurityFee = big.NewInt(100000), big.NewInt(100000), big.NewInt(100000)
+			return true
+		}},
 		{Name: "fee-swap", Actions: feeActions, Typed: func(c *corruptCtx, s *txSpec) bool { return feeMix(c, s, true) }},
 		{Name: "fee-duplicate", Actions: feeActions, Typed: func(c *corruptCtx, s *txSpec) bool { return feeMix(c, s, false) }},
 		{Name: "fee-payer", Actions: feeActions, Typed: func(c *corruptCtx, s *txSpec) bool {
